@@ -7,7 +7,17 @@ set -u
 COPY=$1; LOG=$2; PATCH=${3:-}
 mkdir -p "$COPY"
 # sync only tracked source files that differ (keeps build products, so make is incremental)
-cd /repo && git ls-files -z | rsync -a --files-from=- --from0 /repo/ "$COPY/"
+# SUITE_FROM_HEAD=1: take the sources from a clean worktree of /repo's HEAD (so that a change applied to /repo's
+# working tree by a concurrent mutant sweep can never leak in); files are compared by checksum, unchanged files keep
+# their time stamps in the copy and make stays incremental.
+if [ "${SUITE_FROM_HEAD:-0}" = 1 ]; then
+  CLEAN=${SUITE_CLEAN:-/var/tmp/suite/clean}
+  H=$(git -C /repo rev-parse HEAD)
+  if [ -d "$CLEAN/.git" ] || [ -f "$CLEAN/.git" ]; then git -C "$CLEAN" checkout -q --detach "$H"; else git -C /repo worktree add -q --detach "$CLEAN" "$H"; fi
+  (cd "$CLEAN" && git ls-files -z | rsync -a -c --files-from=- --from0 "$CLEAN/" "$COPY/")
+else
+  cd /repo && git ls-files -z | rsync -a --files-from=- --from0 /repo/ "$COPY/"
+fi
 if [ -n "$PATCH" ]; then (cd "$COPY" && git apply "$PATCH") || { echo "patch failed" > "$LOG"; exit 3; }; fi
 unshare -m bash -c "mount --bind '$COPY' /repo && cd /repo && (make -j16 >/dev/null 2>'$LOG.build.err' || echo BUILD-FAILED) && make -k -j16 check 2>&1" > "$LOG" 2>&1
 grep -hE "^# (TOTAL|PASS|FAIL|XFAIL|XPASS|ERROR|SKIP):" "$LOG" | awk '{a[$2]+=$3} END{for(k in a) print k, a[k]}' | sort > "$LOG.summary"
